@@ -504,14 +504,7 @@ func otherName(h string) string {
 	return "A"
 }
 
-func freePort() int {
-	l, err := vh.Listen("127.0.0.1:0")
-	if err != nil {
-		panic(err)
-	}
-	defer l.Close()
-	return l.Addr().(*net.TCPAddr).Port
-}
+func freePort() int { return vh.HubPort() }
 
 var stNames = map[model.ShipMessageExchangeState]string{38: "Complete", 39: "Error"}
 
@@ -664,8 +657,8 @@ func runScript(s scriptT) obsT {
 			// and what it still answers its connections while it shuts down is not judged against the new incarnation's history
 			n.mu.Lock()
 			n.gen++
-			n.mu.Unlock()
 			l.add(op.H, "OpRestart", "")
+			n.mu.Unlock()
 			n.h.Shutdown()
 			n.mu.Lock()
 			n.lastWord, n.lastNote = "", ""
